@@ -544,3 +544,107 @@ def shutdown_fault_probe(ctx, res, props, runs):
             continue
         if box.get("second") != ("returned", [0, 3, 6, 9, 12]):
             res.fail("not-reusable-after-interrupted-cleanup", case, dict(first=box.get("first"), second=box.get("second")))
+
+
+def startup_fault_probe(ctx, res, props, runs):
+    """C04 "the call always terminates, and afterwards the same Parallel object - inside or outside a with block - can be
+    called again and returns exactly the results of the new tasks": the call fails DURING ITS START-UP - an invalid
+    pre_dispatch, an input that is not iterable / whose __len__ or __iter__ raises, a backend whose configure() or start_call()
+    raises once.  Whatever that call raises, the next call on the same object (with the cause removed) must be accepted and
+    return its own results."""
+    if "C04" not in props:
+        return
+    joblib = core.use_repo()
+    from joblib._parallel_backends import ThreadingBackend
+    from joblib.parallel import register_parallel_backend, BACKENDS
+
+    class BadLen:
+        def __len__(self):
+            raise OSError("injected: __len__")
+
+        def __iter__(self):
+            return iter(())
+
+    class BadIter:
+        def __iter__(self):
+            raise OSError("injected: __iter__")
+
+    causes = [("pre_dispatch", "-n_jobs"), ("pre_dispatch", "n_jobsx"), ("pre_dispatch", "n_jobs/0"), ("pre_dispatch", None),
+              ("pre_dispatch", -1), ("pre_dispatch", "2**63"), ("input", 5), ("input", "BadLen"), ("input", "BadIter"),
+              ("backend", "configure"), ("backend", "start_call")]
+    rng = ctx.rng("native-startup-fault")
+    combos = [(c, managed, nj) for c in causes for managed in (False, True) for nj in (2,)]
+    combos += [(c, False, 1) for c in causes if c[0] == "input"]
+    rng.shuffle(combos)
+    combos.sort(key=lambda t: t[0][0])  # deterministic grouping; every cause kind is reached whatever `runs` is
+    step = max(1, len(combos) // max(1, runs))
+    for (kind, what), managed, nj in combos[::step][:runs] if runs < len(combos) else combos:
+        armed = {"on": False, "fired": 0}
+
+        class Faulty(ThreadingBackend):
+            def configure(self, *a, **k):
+                if kind == "backend" and what == "configure" and armed["on"]:
+                    armed["on"] = False
+                    armed["fired"] += 1
+                    raise OSError("injected fault in backend.configure()")
+                return super().configure(*a, **k)
+
+            def start_call(self):
+                if kind == "backend" and what == "start_call" and armed["on"]:
+                    armed["on"] = False
+                    armed["fired"] += 1
+                    raise OSError("injected fault in backend.start_call()")
+                return super().start_call()
+
+        name = "verif-faulty-startup"
+        register_parallel_backend(name, Faulty)
+        case = dict(kind="native-startup-fault", cause=kind, what=repr(what), managed=managed, n_jobs=nj)
+        box = {}
+
+        def body():
+            try:
+                p = joblib.Parallel(n_jobs=nj, backend=name, pre_dispatch=what if kind == "pre_dispatch" else "2*n_jobs")
+                if kind == "backend" and what == "configure" and managed:
+                    # inside a with block configure() runs in __enter__: arm the fault for the re-configuration only
+                    pass
+                if managed:
+                    p.__enter__()
+                try:
+                    armed["on"] = True
+                    good = [joblib.delayed(lambda k: k + 1)(i) for i in range(4)]
+                    bad_input = {5: 5, "BadLen": BadLen(), "BadIter": BadIter()}.get(what) if kind == "input" else None
+                    try:
+                        box["first"] = ("returned", p(bad_input if kind == "input" else good))
+                    except BaseException as e:  # noqa: BLE001
+                        box["first"] = ("raised", type(e).__name__)
+                    armed["on"] = False
+                    if kind == "pre_dispatch":
+                        p.pre_dispatch = "2*n_jobs"
+                    try:
+                        box["second"] = ("returned", p(joblib.delayed(lambda k: k * 3)(i) for i in range(5)))
+                    except BaseException as e:  # noqa: BLE001
+                        box["second"] = ("raised", type(e).__name__, str(e)[:80])
+                finally:
+                    if managed:
+                        try:
+                            p.__exit__(None, None, None)
+                        except BaseException:  # noqa: BLE001
+                            pass
+            finally:
+                BACKENDS.pop(name, None)
+
+        t = threading.Thread(target=body, daemon=True)
+        t.start()
+        t.join(40)
+        res.evaluations += 1
+        res.count("native-startup-fault-runs")
+        if t.is_alive():
+            res.fail("call-never-returns", case, dict(box=box))
+            continue
+        first = box.get("first")
+        if not first or first[0] != "raised":
+            res.count("native-startup-fault:first-call-did-not-fail")
+            continue
+        res.nontrivial.add(("native-startup-fault", kind, repr(what), managed, nj))
+        if box.get("second") != ("returned", [0, 3, 6, 9, 12]):
+            res.fail("not-reusable-after-failed-start", case, dict(first=first, second=box.get("second")))
